@@ -20,6 +20,7 @@ type SV struct {
 	ty     types.Type
 	set    []SV
 	fnName string // a function used as a value
+	ptrTo  *Addr  // a pointer argument that addresses a part of a heap object (interior pointer)
 }
 
 type specErr struct{ msg string }
@@ -333,7 +334,11 @@ func (c *EvalCtx) selectField(x SV, name string) SV {
 	typ := x.typ
 	// auto-deref
 	if p, ok := typ.Underlying().(*types.Pointer); ok {
-		x = c.derefPtr(c.value(x), p.Elem())
+		if x.ptrTo != nil {
+			x = SV{addr: x.ptrTo, typ: p.Elem()}
+		} else {
+			x = c.derefPtr(c.value(x), p.Elem())
+		}
 		typ = p.Elem()
 	}
 	if !isStruct(typ) {
@@ -344,6 +349,9 @@ func (c *EvalCtx) selectField(x SV, name string) SV {
 		// unexported fields need the package
 		if n, ok := typ.(*types.Named); ok {
 			obj, index, _ = types.LookupFieldOrMethod(typ, true, n.Obj().Pkg(), name)
+		} else if c.pkg != nil {
+			// an unnamed struct type written in the contract's own package
+			obj, index, _ = types.LookupFieldOrMethod(typ, true, c.pkg, name)
 		}
 	}
 	fv, ok := obj.(*types.Var)
